@@ -78,6 +78,22 @@ class Vars:
         self.assumptions += [s >= cal.t_lo(), s < cal.t_hi()]
         return STime(s, z3.Bool(name + "!nat") if nat else FALSE)
 
+    def string(self, name, maxlen, alphabet=None):
+        """bounded symbolic string; code points restricted to `alphabet` (list of (lo, hi) ranges) if given"""
+        from .symstr import SStr
+        ln = z3.Int(name + "!len")
+        self.names.append(name)
+        self.assumptions += [ln >= 0, ln <= maxlen]
+        chars = []
+        for i in range(maxlen):
+            c = z3.Int(f"{name}!c{i}")
+            if alphabet is None:
+                self.assumptions += [c >= 1, c <= 0x10FFFF, z3.Or(c < 0xD800, c > 0xDFFF)]
+            else:
+                self.assumptions.append(z3.Or(*[z3.And(c >= lo, c <= hi) for lo, hi in alphabet]))
+            chars.append(c)
+        return SStr(chars, ln)
+
     def times_increasing(self, prefix, n, min_step=1, max_step=2 ** 22):
         ts = [self.time(f"{prefix}{i}") for i in range(n)]
         for a, b in zip(ts, ts[1:]):
@@ -113,6 +129,10 @@ def concretize(x, model):
         if z3.is_true(_ev(model, x.nat)):
             return np.timedelta64("NaT", "ns")
         return np.timedelta64(_ev(model, x.s).as_long(), "s").astype("timedelta64[ns]")
+    from .symstr import SStr
+    if isinstance(x, SStr):
+        n = _ev(model, x.length).as_long()
+        return "".join(chr(_ev(model, c).as_long()) for c in x.chars[:n])
     if isinstance(x, dict):
         return {k: concretize(v, model) for k, v in x.items()}
     if isinstance(x, list):
@@ -341,6 +361,10 @@ def observe(result):
     raise Unsupported(f"cannot observe result of type {type(result).__name__}")
 
 
+def _is_numeral(t):
+    return z3.is_int_value(t) or z3.is_rational_value(t)
+
+
 def same_outcome(sym_out, real_out, model):
     """Compare the symbolic outcome evaluated under `model` with the real outcome.  -> (ok, detail)"""
     if sym_out.raised or real_out.raised:
@@ -359,8 +383,9 @@ def same_outcome(sym_out, real_out, model):
     for i, (f, g) in enumerate(zip(sym_out.flags, real_out.flags)):
         if sm[i]:
             continue
-        fv = _ev(model, f)
-        if not fv.eq(g) and not (z3.is_int_value(fv) and z3.is_int_value(g) and fv.as_long() == g.as_long()):
+        fv = z3.simplify(_ev(model, f))
+        g = z3.simplify(g)
+        if not fv.eq(g) and not (_is_numeral(fv) and _is_numeral(g) and _numval(fv) == _numval(g)):
             return False, f"value[{i}] differs: model {fv} vs real {g}"
     return True, None
 
